@@ -108,6 +108,3 @@ func cmdFn(args []string) {
 	}
 }
 
-func cmdCheck(args []string) {
-	fmt.Println("not implemented yet")
-}
